@@ -4,6 +4,7 @@ package xtime
 
 import (
 	"time"
+	"unsafe"
 
 	"verif.local/vsync/kern"
 )
@@ -15,9 +16,53 @@ import (
 //go:norace
 func Now() time.Time {
 	t := time.Now()
-	if k := kern.Cur(); k != nil && k.TickNs > 0 {
-		return t.Add(time.Duration(k.Tick()))
+	k := kern.Cur()
+	if k == nil {
+		return t
 	}
+	if k.TickNs > 0 {
+		t = t.Add(time.Duration(k.Tick()))
+	}
+	if k.MonoTimes {
+		// Inside a synctest bubble time.Now carries no monotonic reading, so a step of
+		// the wall clock cannot be told from time passing. With MonoTimes the value
+		// is rebuilt the way the runtime builds it outside a bubble: wall clock =
+		// bubble clock + WallSkew (what an NTP step or a VM resume moves), monotonic
+		// reading = bubble time elapsed. Code that compares the values as they are is
+		// immune to WallSkew; code that strips the monotonic reading (UTC(), Round(0),
+		// Unix...) and compares wall clocks is not - as in production.
+		return withMono(t.Add(k.WallSkew), int64(t.Sub(k.Start()))+1)
+	}
+	return t
+}
+
+type timeRep struct {
+	wall uint64
+	ext  int64
+	loc  *time.Location
+}
+
+const (
+	hasMonotonic     = 1 << 63
+	nsecShift        = 30
+	wallToUnixOffset = 2682288000 // seconds from Jan 1 1885 to Jan 1 1970 (time.wallToInternal - unixToInternal)
+)
+
+// withMono returns wall's instant as a time.Time that carries the monotonic
+// reading mono (the representation documented in package time: flag bit, 33 bits
+// of seconds since 1885, 30 bits of nanoseconds; ext = monotonic nanoseconds).
+//
+//go:norace
+func withMono(wall time.Time, mono int64) time.Time {
+	sec := wall.Unix() + wallToUnixOffset
+	if sec < 0 || sec >= 1<<33 {
+		return wall
+	}
+	var t time.Time
+	r := (*timeRep)(unsafe.Pointer(&t))
+	r.wall = hasMonotonic | uint64(sec)<<nsecShift | uint64(wall.Nanosecond())
+	r.ext = mono
+	r.loc = time.Local
 	return t
 }
 
